@@ -2,7 +2,26 @@ package main
 
 import (
 	"go/types"
+	"strconv"
+	"strings"
 )
+
+// traceKey renders the decisions taken so far (cached incrementally).
+func (p *Path) traceKey() string {
+	if p.traceKeyN != len(p.trace) {
+		var sb strings.Builder
+		sb.WriteString(p.h.Name)
+		for _, d := range p.trace {
+			sb.WriteByte(byte('0' + d%10))
+			if d >= 10 {
+				sb.WriteString("x" + strconv.Itoa(d))
+			}
+		}
+		p.traceKeyS = sb.String()
+		p.traceKeyN = len(p.trace)
+	}
+	return p.traceKeyS
+}
 
 // ---------- object construction ----------
 
@@ -209,14 +228,6 @@ func (p *Path) readElemAt(o *Object, upto int, idx *Term) *Term {
 		switch e.kind {
 		case logStore:
 			c := tc.Eq(e.idx, idx)
-			if !c.IsConst() && !(e.idx.IsConst() && idx.IsConst()) {
-				switch p.implied(c) {
-				case 1:
-					c = tc.True
-				case -1:
-					c = tc.False
-				}
-			}
 			if c.IsTrue() {
 				result = e.val
 			} else if !c.IsFalse() {
@@ -473,6 +484,12 @@ func copyValue(v Value) Value { return v }
 // +1 if it implies c, -1 if it implies not c, 0 otherwise. Results are cached;
 // they stay valid because the path condition only grows.
 func (p *Path) implied(c *Term) int {
+	if !p.noIntervals {
+		if d := p.decide(c, 0); d != 0 {
+			p.st.IntervalDecided++
+			return d
+		}
+	}
 	if p.noSolverSimp {
 		return 0
 	}
@@ -485,6 +502,16 @@ func (p *Path) implied(c *Term) int {
 	}
 	key := [2]int{c.ID, gid}
 	if r, ok := p.impliedMemo[key]; ok && r != 0 {
+		return r
+	}
+	// cross-path cache: execution is deterministic, so (decisions so far, term ids) identify the query
+	ckey := p.traceKey() + "|" + strconv.FormatUint(c.H[0], 16) + strconv.FormatUint(c.H[1], 16)
+	if p.guard != nil {
+		ckey += "|" + strconv.FormatUint(p.guard.H[0], 16) + strconv.FormatUint(p.guard.H[1], 16)
+	}
+	if v, ok := p.eng.simpCache.Load(ckey); ok {
+		r := v.(int)
+		p.impliedMemo[key] = r
 		return r
 	}
 	q := c
@@ -503,5 +530,6 @@ func (p *Path) implied(c *Term) int {
 	}
 	p.st.SimpQueries++
 	p.impliedMemo[key] = res
+	p.eng.simpCache.Store(ckey, res)
 	return res
 }
